@@ -129,8 +129,24 @@ def gen_fn(rng, n, lb, hb, depth=0):
   kinds = ['poly', 'polyoff', 'hlq', 'abc', 'innerHlq', 'demand', 'null']
   if depth < 2:
     kinds += ['add', 'add', 'reflect'] + (['append', 'append'] if n >= 2 else [])
+  if depth == 0:      # wide combinators: 5-6 summands in ONE SumFunction, 4-6 ranges in ONE RangesFunction (build_fn folds the chains)
+    kinds += ['addN'] + (['appendN'] if n >= 4 else [])
   k = rng.choice(kinds)
   L = lambda v: [fs(x) for x in v]
+  if k == 'addN':
+    parts = [gen_fn(rng, n, lb, hb, 2) for _ in range(rng.randint(5, 6))]
+    f = parts[-1]
+    for g in reversed(parts[:-1]):
+      f = {'k': 'add', 'f': g, 'g': f}
+    return f
+  if k == 'appendN':
+    cuts = sorted(rng.sample(range(1, n), min(n - 1, rng.randint(3, 5))))
+    def chain(start, cs):
+      if not cs:
+        return gen_fn(rng, n - start, lb[start:], hb[start:], 2)
+      at = cs[0] - start
+      return {'k': 'append', 'at': at, 'f': gen_fn(rng, at, lb[start:cs[0]], hb[start:cs[0]], 2), 'g': chain(cs[0], cs[1:])}
+    return chain(0, cuts)
   if k == 'null':
     return {'k': 'null'}
   if k == 'add':
@@ -142,7 +158,7 @@ def gen_fn(rng, n, lb, hb, depth=0):
     return {'k': 'append', 'at': at, 'f': gen_fn(rng, at, lb[:at], hb[:at], depth + 1),
             'g': gen_fn(rng, n - at, lb[at:], hb[at:], depth + 1)}
   if k in ('poly', 'polyoff'):
-    deg = rng.randint(0, 3)
+    deg = rng.choice([0, 1, 2, 3, 3, 4, 5])      # nothing bounds the degree of a polynomial curve
     cs = [[fs(dy(rng, 0 if j == 0 else -2, 2)) for j in range(deg + 1)] for _ in range(n)]
     if k == 'polyoff':
       cs = [[fs(dy(rng, 0, 2)), fs(dy(rng, -2, 2)), fs(dy(rng, -2, 2))] for _ in range(n)]
@@ -162,7 +178,8 @@ def gen_fn(rng, n, lb, hb, depth=0):
       hi = lo
     return {'k': 'innerHlq', 'pl': fs(pl), 'ph': fs(ph), 'xl': fs(lo), 'xh': fs(hi)}
   if k == 'demand':
-    return {'k': 'demand', 'cs': L([dy(rng, 0, 2), dy(rng, -2, 2), dy(rng, -2, 2)][rng.randint(0, 2):])}
+    hi_ = [[], [], [dy(rng, -1, 1)], [dy(rng, 0, 1), dy(rng, -1, 1)]][rng.randint(0, 3)]      # inner curve: up to a quartic, signed coefficients
+    return {'k': 'demand', 'cs': L(hi_ + [dy(rng, 0, 2), dy(rng, -2, 2), dy(rng, -2, 2)]) if hi_ else L([dy(rng, 0, 2), dy(rng, -2, 2), dy(rng, -2, 2)][rng.randint(0, 2):])}
   raise AssertionError(k)
 
 
